@@ -130,3 +130,23 @@ PROPS["C09"] = {
          "thorough": {"checks": 400000, "shards": 6, "timeout": 900}},
     ],
 }
+
+PROPS["C01"] = {
+    "title": "Ledger conservation: executing blocks never mints or burns native coin",
+    "level": "exploration",
+    "technique": "PBT (rapid) over generated block histories on real nodes; invariant oracle = sum of all balances in a full state dump before/after each block (independent of any ledger model), on producer and validator path",
+    "level_text": ("Generated histories of 1-6 blocks x 0-8 transactions (transfers, stake/unstake/votes, name create/update/setOwner, enterprise "
+                   "calls, deploy/call/fee-delegation of stub contracts, failing and to-be-skipped transactions) over drawn configurations (dpos/sbp, "
+                   "public/private fee regime, hardfork schedule so that versions 0..5 occur, coinbase set or nil); each block is built by the real "
+                   "producer path and connected, optionally re-executed by a second node; the total over a full dump of every account must be conserved "
+                   "(minus receipt fees when there is no coinbase)."),
+    "level_note": "The LuaJIT VM is replaced by the pure-Go stub (trusted, see DESIGN 1.3), so Lua-initiated transfers are out of reach. Unstake/re-vote only occur as refusals on real chains (86400-block lock); they are reached by the C15 virtual-height driver.",
+    "rule": ("a case = one drawn configuration + history; non-trivial = some block has >=2 executed transactions of >=2 kinds with one moving value to/from "
+             "a system account or ending in an ERROR receipt; distinct = distinct (configuration, per-block tx kinds)."),
+    "assumptions": ["stub VM stands in for LuaJIT", "memorydb is a correct store"],
+    "units": [
+        {"pkg": "verifx/c01", "run": "^TestC01Conservation$",
+         "quick": {"checks": 300, "shards": 10, "timeout": 300},
+         "thorough": {"checks": 6000, "shards": 16, "timeout": 1700}},
+    ],
+}
